@@ -171,6 +171,92 @@ def check_voronoi(sites, site_t, polys, facecolors, cmap, box, clip, sample_pts)
     return None
 
 
+CLIP_SHAPES = {
+    # hole-free polygons in unit coordinates of the drawn box (the library draws the exterior ring of every piece only)
+    "slot": [(0, 0), (1, 0), (1, 1), (0.5625, 1), (0.5625, 0.1875), (0.4375, 0.1875), (0.4375, 1), (0, 1)],
+    "comb": [(0, 0), (1, 0), (1, 1), (0.8125, 1), (0.8125, 0.25), (0.6875, 0.25), (0.6875, 1), (0.3125, 1), (0.3125, 0.25), (0.1875, 0.25), (0.1875, 1), (0, 1)],
+    "hslot": [(0, 0), (1, 0), (1, 0.4375), (0.125, 0.4375), (0.125, 0.5625), (1, 0.5625), (1, 1), (0, 1)],
+    "ell": [(0, 0), (1, 0), (1, 0.375), (0.375, 0.375), (0.375, 1), (0, 1)],
+    "tri": [(0.0625, 0.0625), (0.9375, 0.125), (0.5, 0.9375)],
+}
+
+
+def clip_polygon_coords(spec, box):
+    (x0, x1), (y0, y1) = [(float(a), float(b)) for a, b in box]
+    return [(x0 + u * (x1 - x0), y0 + v * (y1 - y0)) for u, v in CLIP_SHAPES[spec["poly"]]]
+
+
+def check_voronoi_poly(sites, site_t, polys, facecolors, cmap, box, spec, sample_pts):
+    """the 2-D CVT heat map clipped to a user-supplied (possibly non-convex) polygon: a Voronoi region may be cut into several
+    pieces, each drawn piece must lie in the nearest-neighbour region of ONE centroid and carry the colour of that centroid's
+    cell; together the pieces cover the clip polygon.  Point-in-polygon tests use shapely (floats) away from borders."""
+    import shapely
+    if len(polys) != len(facecolors):
+        return "PolyCollection has %d paths but %d face colours" % (len(polys), len(facecolors))
+    clip = shapely.Polygon(clip_polygon_coords(spec, box))
+    (x0, x1), (y0, y1) = box
+    scale = max(abs(x1 - x0), abs(y1 - y0))
+    fscale = float(scale)
+    pieces = []
+    total = 0.0
+    for pi, verts in enumerate(polys):
+        poly = clean_poly(verts)
+        if len(poly) == 0:
+            pieces.append((None, None))      # a region that does not meet the clip polygon: an empty path, nothing is drawn
+            continue
+        if len(poly) < 3:
+            return "polygon %d is degenerate (%d distinct vertices)" % (pi, len(poly))
+        sp = shapely.Polygon([(float(a), float(b)) for a, b in poly])
+        if not sp.is_valid or sp.area <= 0:
+            return "polygon %d is not a simple polygon with positive area" % pi
+        total += sp.area
+        if sp.area < 1e-7 * fscale * fscale:
+            pieces.append((sp, None))      # a sliver: its owner cannot be decided robustly
+            continue
+        rp = sp.representative_point()
+        p = (F(rp.x), F(rp.y))
+        ds = sorted((d2(p, s), si) for si, s in enumerate(sites))
+        si = ds[0][1]
+        s = sites[si]
+        epos = F(1, 10 ** 9) * 1000 * scale
+        for v in poly:
+            dv = d2(v, s)
+            for sj, o in enumerate(sites):
+                if sj != si:
+                    do = d2(v, o)
+                    tol = epos * epos + 2 * epos * F(math.sqrt(float(d2(s, o))) + 1e-300) + F(1, 10 ** 9) * max(dv, do, F(1, 10 ** 30))
+                    if dv > do + tol:
+                        if len(ds) > 1 and ds[1][0] - ds[0][0] <= F(1, 10 ** 6) * scale * scale:
+                            break      # the interior point itself is near a border: undecided
+                        return ("polygon %d (interior point nearest to centroid %d): vertex (%r, %r) is closer to centroid %d -- the piece is "
+                                "not inside one nearest-neighbour region" % (pi, si, float(v[0]), float(v[1]), sj))
+        if len(ds) > 1 and ds[1][0] - ds[0][0] <= F(1, 10 ** 6) * scale * scale:
+            pieces.append((sp, None))
+            continue
+        if not color_ok(cmap, site_t[si], facecolors[pi]):
+            return "polygon %d, a piece of the region of centroid %d: face colour %s is not %s" % (
+                pi, si, [round(float(c), 6) for c in facecolors[pi]], "blank" if site_t[si] is None else "cmap(%s)" % float(site_t[si]))
+        if not clip.buffer(1e-9 * fscale).contains(sp):
+            return "polygon %d leaves the clip polygon" % pi
+        pieces.append((sp, si))
+    if abs(total - clip.area) > 1e-9 * max(clip.area, 1e-300):
+        return "the drawn pieces cover area %r, the clip polygon has %r" % (total, clip.area)
+    for p in sample_pts:
+        pt = shapely.Point(float(p[0]), float(p[1]))
+        if not clip.buffer(-1e-6 * fscale).contains(pt):
+            continue
+        ds = sorted((d2(p, s), si) for si, s in enumerate(sites))
+        if len(ds) > 1 and ds[1][0] - ds[0][0] <= F(1, 10 ** 6) * scale * scale:
+            continue
+        si = ds[0][1]
+        hit = [pc for pc in pieces if pc[0] is not None and pc[0].buffer(1e-9 * fscale).contains(pt)]
+        if not hit:
+            return "point (%r, %r) of the clip polygon is covered by no drawn polygon" % (float(p[0]), float(p[1]))
+        if all(h[1] is not None and h[1] != si for h in hit):
+            return "point (%r, %r) is nearest to centroid %d but lies in a piece attributed to centroid %s" % (float(p[0]), float(p[1]), si, [h[1] for h in hit])
+    return None
+
+
 # ---------------------------------------------------------------------------------------------
 # artists -> plain data
 def quadmesh_data(ax):
